@@ -514,3 +514,35 @@ Definition teosd_docs (template : layer) : docs :=
 
 (* teos-cli shares teos.toml but documents its own defaults nowhere else than in cli_config.rs *)
 Definition cli_docs : docs := mk_docs [] [] [] [] [] [] [] [] [].
+
+(* =====================================================================================
+   Entry points for the OCaml driver (coq/extraction/drv_config.ml).  The extracted models of all
+   properties share one flat OCaml namespace, in which a name that another model also uses is silently
+   renamed; the driver therefore refers only to these uniquely named aliases (and to the constructors
+   VStr/VNum/VBool/VOk/VErr).
+   ===================================================================================== *)
+Definition cfg_run_daemon := run_daemon.
+Definition cfg_run_cli := run_cli.
+Definition cfg_mon_fails := mon_fails.
+Definition cfg_mon_fails_cli := mon_fails_cli.
+Definition cfg_cli_ok := cli_ok.
+Definition cfg_get := cget.
+Definition cfg_file_seen := file_seen.
+Definition cfg_mk_cli := mk_cli.
+Definition cfg_mk_outcome := mk_outcome.
+Definition cfg_oc_patched := oc_patched.
+Definition cfg_oc_result := oc_result.
+Definition cfg_oc_final := oc_final.
+Definition cfg_field_names (D : descr) : list text := map f_name (d_fields D).
+Definition cfg_conforms := conforms.
+Definition cfg_one_shot_names := one_shot_names.
+Definition cfg_defaults_documented := defaults_documented.
+(* (verify has the expected shape, the auth table is the clean one, networks and scrutinee as documented) *)
+Definition cfg_verify_checks (V : vdescr) (Dc : docs) : bool * bool * bool :=
+  match verify_shape (v_stmts V) with
+  | Some sh => (true, auth_table_ok V sh, networks_documented sh Dc && scrutinee_documented V Dc)
+  | None => (false, false, false)
+  end.
+Definition cfg_teosd_docs := teosd_docs.
+Definition cfg_teoscli_docs := cli_docs.
+Definition cfg_n_port := n_port.
